@@ -20,3 +20,14 @@ let desc = { fresh = ci_fresh; decode = (fun _ d -> if orig then ci_decode_orig 
   next = (fun _ _ -> "none"); render_panics = ci_render_panics; of_spec = (fun _ -> failwith "no spec"); junk_len = 0 }
 let run id ops out = run_generic desc id ops out
 let registered = Registry.register "Lcdpinfo" run
+let coq_cv (v : cdpv) = Printf.sprintf "(mkCv %s %s %s)" (coq_z v.cv_type) (coq_z v.cv_len) (coq_zlist v.cv_value)
+let coq_upd (u : ci_upd) = match u with
+  | UStr (k, s) -> Printf.sprintf "(UStr %s %s)" (coq_z k) (coq_zlist s)
+  | UNum (k, n) -> Printf.sprintf "(UNum %s %s)" (coq_z k) (coq_z n)
+  | UAddrs (k, a) -> Printf.sprintf "(UAddrs %s %s)" (coq_z k) (coq_list coq_zlist a)
+  | UPrefix p -> Printf.sprintf "(UPrefix %s)" (coq_zlist p)
+  | UPow (k, n) -> Printf.sprintf "(UPow %s %s)" (coq_z k) (coq_z n)
+  | UUnknown v -> Printf.sprintf "(UUnknown %s)" (coq_cv v)
+let coq_layer (l : cdpinfo) = Printf.sprintf "(mkCi %s %s)" (coq_zlist l.ci_contents) (coq_list coq_upd l.ci_log)
+let registered_coq = Registry.register_coq "Lcdpinfo" ("From GP Require Import Base LcdpModel LcdpinfoModel.\n",
+  Lsmallutil.to_coq_generic { Lsmallutil.cd = desc; coq_layer; g_dec = (if orig then "(fun _ : cdpinfo => ci_decode_orig)" else "(fun _ : cdpinfo => ci_decode)"); g_fresh = "ci_fresh"; g_ser = ""; g_rp = "ci_render_panics" })
